@@ -58,9 +58,11 @@ type helperInfo struct {
 type inliner struct {
 	info    *types.Info
 	helpers map[*types.Func]*helperInfo
-	n       int
-	cur     *ast.FuncDecl                   // function being rewritten
-	hosts   map[*types.Func][]*ast.FuncDecl // helper -> functions it was expanded into
+	// helpers that defer: expanded only as `go helper(args)` -> `go func() { body }()`
+	goHelpers map[*types.Func]*helperInfo
+	n         int
+	cur       *ast.FuncDecl                   // function being rewritten
+	hosts     map[*types.Func][]*ast.FuncDecl // helper -> functions it was expanded into
 }
 
 func (p *Prog) inlineNewHelpers() int {
@@ -132,7 +134,7 @@ func (p *Prog) inlineNewHelpers() int {
 
 func inlinePkg(pkg *packages.Package, base map[string]bool) (int, map[*types.Func]*helperInfo, map[*types.Func][]*ast.FuncDecl) {
 	info := pkg.TypesInfo
-	in := &inliner{info: info, helpers: map[*types.Func]*helperInfo{}}
+	in := &inliner{info: info, helpers: map[*types.Func]*helperInfo{}, goHelpers: map[*types.Func]*helperInfo{}}
 	for _, f := range pkg.Syntax {
 		for _, d := range f.Decls {
 			fd, ok := d.(*ast.FuncDecl)
@@ -150,11 +152,11 @@ func inlinePkg(pkg *packages.Package, base map[string]bool) (int, map[*types.Fun
 			if sig.Variadic() || sig.TypeParams().Len() > 0 || sig.RecvTypeParams().Len() > 0 {
 				continue
 			}
-			bad := false
+			bad, defers := false, false
 			ast.Inspect(fd.Body, func(n ast.Node) bool {
 				switch x := n.(type) {
 				case *ast.DeferStmt:
-					bad = true
+					defers = true
 				case *ast.CallExpr:
 					if Callee(info, x) == obj {
 						bad = true // recursive
@@ -172,6 +174,14 @@ func inlinePkg(pkg *packages.Package, base map[string]bool) (int, map[*types.Fun
 			if bad {
 				continue
 			}
+			if defers {
+				// a deferring helper keeps its meaning only as the body of a function literal: it is
+				// expanded where it is started with `go`
+				if sig.Results().Len() == 0 {
+					in.goHelpers[obj] = &helperInfo{decl: fd, obj: obj}
+				}
+				continue
+			}
 			h := &helperInfo{decl: fd, obj: obj}
 			if len(fd.Body.List) == 1 {
 				if r, ok := fd.Body.List[0].(*ast.ReturnStmt); ok && len(r.Results) == 1 && sig.Results().Len() == 1 {
@@ -184,7 +194,7 @@ func inlinePkg(pkg *packages.Package, base map[string]bool) (int, map[*types.Fun
 			in.helpers[obj] = h
 		}
 	}
-	if len(in.helpers) == 0 {
+	if len(in.helpers) == 0 && len(in.goHelpers) == 0 {
 		return 0, nil, nil
 	}
 	for round := 0; round < 4; round++ {
@@ -203,7 +213,14 @@ func inlinePkg(pkg *packages.Package, base map[string]bool) (int, map[*types.Fun
 			break
 		}
 	}
-	return in.n, in.helpers, in.hosts
+	allHelpers := map[*types.Func]*helperInfo{}
+	for o, h := range in.helpers {
+		allHelpers[o] = h
+	}
+	for o, h := range in.goHelpers {
+		allHelpers[o] = h
+	}
+	return in.n, allHelpers, in.hosts
 }
 
 // ---- deep copy with type information ----
@@ -732,6 +749,28 @@ func (in *inliner) rewriteFunc(fd *ast.FuncDecl) {
 					if h, call := in.helperOf(x.Results[0]); h != nil && h.expr == nil {
 						out = append(out, in.expandStmt(h, call, nil, token.ASSIGN, true)...)
 						continue
+					}
+				}
+			case *ast.GoStmt:
+				// `go helper(args)`: the helper's body becomes the body of a function literal
+				if fn := Callee(in.info, x.Call); fn != nil {
+					h := in.goHelpers[fn]
+					if h == nil {
+						if hh := in.helpers[fn]; hh != nil && hh.obj.Type().(*types.Signature).Results().Len() == 0 {
+							h = hh
+						}
+					}
+					_, viaSel := x.Call.Fun.(*ast.SelectorExpr)
+					if h != nil && (h.decl.Recv == nil || viaSel) && len(x.Call.Args) == h.obj.Type().(*types.Signature).Params().Len() {
+						call := x.Call
+						body := in.expandStmt(h, call, nil, token.ASSIGN, true)
+						lit := &ast.FuncLit{
+							Type: &ast.FuncType{Func: call.Pos(), Params: &ast.FieldList{Opening: call.Pos(), Closing: call.Pos()}},
+							Body: &ast.BlockStmt{Lbrace: call.Pos(), List: body, Rbrace: call.End()},
+						}
+						in.info.Types[lit] = types.TypeAndValue{Type: types.NewSignatureType(nil, nil, nil, nil, nil, false)}
+						x.Call = &ast.CallExpr{Fun: lit, Lparen: call.End(), Rparen: call.End()}
+						in.n++
 					}
 				}
 			case *ast.IfStmt:
